@@ -414,6 +414,7 @@ func (c35Store) Docs() []string {
 	// gen:meta: generated, keywords both in the Info dictionary and in a (newer) XMP packet
 	return []string{"zineTest.pdf", "gen:meta", "xdp_2.0.pdf", "test.pdf", "Walden.pdf", "testWithText.pdf", "T4.pdf"}
 }
+
 // genMetaDoc writes (independently of pdfcpu's writer) a two-page document whose keywords are recorded
 // twice, as producers do: in the Info dictionary and in the catalog's XMP metadata stream (which is
 // newer than the Info dictionary), plus one custom property. It returns the document and what it holds.
